@@ -82,9 +82,9 @@ def _sizes_equal(a, b, path=""):
             bad.append(f"{path}.{k}: compiled {sa.get(k)} interpreted {sb.get(k)}")
     for f in type(a).__fields__:
         va, vb = getattr(a, f._name, None), getattr(b, f._name, None)
-        if isinstance(va, UnionProxy):
+        while isinstance(va, UnionProxy):
             va = va.__target__
-        if isinstance(vb, UnionProxy):
+        while isinstance(vb, UnionProxy):
             vb = vb.__target__
         if isinstance(va, m.Structure) and isinstance(vb, m.Structure):
             bad += _sizes_equal(va, vb, f"{path}.{f._name}")
